@@ -959,14 +959,23 @@ def r7(ctx):
              and "circuit" in (ap(c.func.value) or "")]
     ctx.floor("C04.R7", "circuit.send calls of the intercepting proxy", len(sends), 1)
     bypass = []
-    for g in fns:
+    mro = repo.mro(hp.cls)
+    # the base-class pass-through itself (the plain SOCKS relay the intercepting class overrides) may send
+    passthrough = {m.full for k in mro[1:] for key, m in k.methods.items() if key == "handle_proxied_packet"}
+    scan = {g.full: g for g in fns}
+    for k in mro:
+        for m in k.methods.values():
+            scan.setdefault(m.full, m)
+    for g in scan.values():
+        if g.full in passthrough:
+            continue
         for c in calls(g.node, into_defs=True):
             if not isinstance(c.func, ast.Attribute):
                 continue
             recv = c.func.value
             via_super = isinstance(recv, ast.Call) and ap(recv.func) == "super" and c.func.attr == "handle_proxied_packet"
-            via_base = isinstance(recv, ast.Name) and recv.id != "self" and c.func.attr == "handle_proxied_packet" \
-                and any(b.name == recv.id for b in repo.mro(hp.cls)[1:])
+            via_base = isinstance(recv, ast.Name) and recv.id not in ("self", "cls") and c.func.attr == "handle_proxied_packet" \
+                and any(b.name == recv.id for b in mro)
             raw_send = c.func.attr == "send_packet"
             if via_super or via_base or raw_send:
                 bypass.append((g, c))
@@ -1002,6 +1011,55 @@ def r7(ctx):
                "construction not under a `not circuit / not circuit.is_alive` condition")
 
 
+def r7_lifetime_and_wire(ctx):
+    repo = ctx.repo
+    # (c) a circuit stops being alive only through Circuit.disconnect: nobody else may flip the flag that lets
+    #     open_circuit build a fresh ProxiedCircuit (fresh trackers) in its place
+    alive_w = _writers(repo, "is_alive")
+    ctx.floor("C04.R7", "stores to <circuit>.is_alive", len(alive_w), 2)
+    for f, st in alive_w:
+        owner = f.cls is not None and f.cls.name == "Circuit" and f.name in ("__init__", "disconnect")
+        if not owner and not f.module.rel.startswith("hippolyzer/lib/proxy/"):
+            continue        # client-side regions manage their own (untranslated) circuits; region teardown (mark_dead)
+        ctx.ob("C04.R7", f"{f.qual}: store {st.path} = {norm(st.value) if st.value is not None else st.kind} by the circuit itself",
+               owner, ctx.w(f, st.node),
+               "a circuit is declared dead from outside Circuit.__init__/disconnect: the next UseCircuitCode replaces it "
+               "with a new ProxiedCircuit whose trackers know nothing of the IDs already translated")
+    # (d) what prepare_message translated is what goes out: serialize() writes msg.packet_id into the buffer it
+    #     returns, on every path - it never hands back bytes kept from the received datagram instead
+    from .c01 import flat_ops
+    sf = repo.fn("UDPMessageSerializer.serialize")
+    rets = [n for n in walk(sf.node) if isinstance(n, ast.Return) and n.value is not None]
+    bases = set()
+    for r in rets:
+        b = r.value
+        while isinstance(b, (ast.Call, ast.Attribute, ast.Subscript)):
+            b = b.func if isinstance(b, ast.Call) else b.value
+        bases.add(b.id if isinstance(b, ast.Name) else None)
+    id_writes = []
+    for w in {x for x in bases if x}:
+        for c, g, chain in flat_ops(repo, sf, "write", {w}):
+            if any(isinstance(x, ast.Attribute) and x.attr == "packet_id" for a in c.args[1:] for x in ast.walk(a)):
+                id_writes.append((w, chain[0][0] if chain else c))
+    ctx.ob("C04.R7", "UDPMessageSerializer.serialize writes msg.packet_id into the buffer it returns", len(id_writes) >= 1, sf.where,
+           "no write of <msg>.packet_id to a buffer that serialize returns")
+    writers = {w for w, _c in id_writes}
+    for r in rets:
+        b = r.value
+        while isinstance(b, (ast.Call, ast.Attribute, ast.Subscript)):
+            b = b.func if isinstance(b, ast.Call) else b.value
+        ok = isinstance(b, ast.Name) and b.id in writers
+        ctx.ob("C04.R7", f"UDPMessageSerializer.serialize: `{norm(r)}` returns the buffer the translated header was written to", ok,
+               ctx.w(sf, r), "returns bytes that were not built from the message's current packet_id / acks (e.g. the datagram "
+                             "as received): the IDs prepare_message translated never reach the wire")
+    if id_writes:
+        cfg = CFG(sf.node)
+        wnodes = [n for _w, c in id_writes for n in cfg.stmt_nodes_containing(c)]
+        wit = cfg.witness_path(cfg.entry, lambda n: n is cfg.exit, avoid=lambda n: n in wnodes, exc=False)
+        ctx.ob("C04.R7", "UDPMessageSerializer.serialize: every returning path writes msg.packet_id", wit is None, sf.where,
+               "a path returns without the packet ID having been written", path=cfg.describe_path(wit) if wit else None)
+
+
 def _through_property(repo, ci, e, pol):
     """A fact that is the truth of `self.<property>` stands for what the property returns (single-return getter)."""
     if isinstance(e, ast.Attribute) and isinstance(e.value, ast.Name) and e.value.id == "self":
@@ -1025,4 +1083,5 @@ def run(ctx):
     r5(ctx)
     r6(ctx)
     r7(ctx)
+    r7_lifetime_and_wire(ctx)
     ctx.assume("the bijection law over all histories is arithmetic over runtime state and is not decided statically")
